@@ -1,3 +1,3 @@
-From LV Require Import Base.Bytes Resp.RespModel.
+From LV Require Import Base.Bytes Resp.RespModel Resp.EncModel.
 Require Import ExtrOcamlBasic.
-Extraction "model.ml" server_emit rfc_frame dechunk chunk_encode Z.of_N Nat.pred.
+Extraction "model.ml" server_emit rfc_frame dechunk chunk_encode Z.of_N Nat.pred enc_rel_uri dir_redirect_location.
